@@ -4,7 +4,7 @@
    failure, a refused thread start. *)
 From Coq Require Import Lia.
 From Coq Require Import Permutation.
-From Torf Require Import Base Pipeline PipelineProofs FlowProofs ThreadProofs DeadlockProofs ConservationProofs ReaderDoneProofs DrainProofs TerminationProofs VerifyTrueProofs VerifyFalseProofs CompleteProofs ExceptionProofs PipeExplore PipeExploreProofs PipeConfigs.
+From Torf Require Import Base Pipeline PipelineProofs FlowProofs ThreadProofs DeadlockProofs ConservationProofs ReaderDoneProofs DrainProofs TerminationProofs VerifyTrueProofs VerifyFalseProofs CompleteProofs ExceptionProofs StopProofs PipeExplore PipeExploreProofs PipeConfigs.
 Open Scope Z_scope.
 
 (* the callback cancels from the second piece on (3 pieces): under every schedule the call returns
@@ -108,6 +108,15 @@ Theorem C04_generate_false_means_stopped : forall c s hs,
 Proof. exact generate_false_means_stopped. Qed.
 Print Assumptions C04_generate_false_means_stopped.
 
+(* UNBOUNDED, "after a bounded amount of further work that does not depend on the torrent's size": once the reader has
+   been told to stop (the stop flag is set: a callback cancelled or raised, an item carried an error without a
+   callback) it hands over at most ONE more piece, in every continuation of the run -- whatever the number of items
+   still unread, the schedule, the number of hashers and the clock.  ([steps c s s']: s' is reachable from s.) *)
+Theorem C04_at_most_one_piece_after_stop : forall c s s',
+  reach c s -> s_stop s = true -> steps c s s' -> s_ridx s' <= s_ridx s + 1 /\ s_stop s' = true.
+Proof. exact at_most_one_piece_after_stop. Qed.
+Print Assumptions C04_at_most_one_piece_after_stop.
+
 (* UNBOUNDED, "an exception only for the right reason": whatever a call raises is the exception the user's callback
    raised (-1), the content error of a verification (1000, verification only), an exception carried by an item of
    the content, the read error the content iterator raised, or the read error of the out-of-memory handler
@@ -136,8 +145,8 @@ Example C04_false_when_stopped_example :
   let hs := map Z.of_nat (seq 1 40) in
   let cfg := mk (map RPiece hs) 40 1 (CbCancelFrom 1) [] None in
   let s := auto_run 3000 cfg (init cfg) in
-  reach cfg s /\ s_result s = Some ResFalse /\ s_stop s = true.
-Proof. split; [apply auto_run_reach; constructor|vm_compute; split; reflexivity]. Qed.
+  reach cfg s /\ s_result s = Some ResFalse /\ s_stop s = true /\ s_ridx s = 4.
+Proof. split; [apply auto_run_reach; constructor|vm_compute; repeat split; reflexivity]. Qed.
 
 (* refuted on the faithful model (known findings): if the start of the janitor or of the first hasher
    is refused, the call raises RuntimeError while the reader (and hashers) keep running *)
